@@ -435,14 +435,16 @@ def exec_pressure_family():
             L = ['predicate A() : Interval { duration >= 6.0; }', 'predicate G() : Interval { duration >= 2.0; }', 'predicate H() : Interval { duration >= 2.0; }',
                  'goal a = new A();', '{ goal g = new G(); g.start >= %s; } [1.0] or { goal h = new H(); h.start >= %s; a.start >= %s; } [3.0]' % (f(gs), f(gs), f(late))]
             out.append(('fe_frozen_%d_%d' % (gs, late), ['\n'.join(L) + '\n'], True))
-    # the same with the END of an atom that is over: with the cheap job G, A is short and ends early (the client may have delayed
-    # its end once); when G fails later, the only alternative needs A to end much later - the executor must refuse or keep the
-    # end where it was
-    for gs in (7, 9):
-        for ub in (3, 5):
-            L = ['predicate A() : Interval { duration >= 2.0; }', 'predicate G() : Interval { duration >= 2.0; }', 'predicate H() : Interval { duration >= 2.0; }',
-                 'goal a = new A();', 'a.start <= 1.0;', '{ goal g = new G(); g.start >= %s; a.end <= %s; } [1.0] or { goal h = new H(); h.start >= %s; a.end >= 12.0; } [3.0]' % (f(gs), f(ub), f(gs))]
-            out.append(('fe_endfrozen_%d_%d' % (gs, ub), ['\n'.join(L) + '\n'], True))
+    # the same with the END of an atom that is over: A is short and starts at once, the cheap job B follows it at a distance
+    # (the client may have delayed A's end once); when B fails, the next alternative D needs A to end much later - the executor
+    # must refuse it, keep the end where it was, or fall back on the dear job C
+    for gap in (3, 4):
+        for ds in (20, 18):
+            L = ['class Rover {', '  predicate A() : Interval { duration >= 2.0; }', '  predicate B() : Interval { duration >= 2.0; }',
+                 '  predicate C() : Interval { duration >= 1.0; }', '  predicate D() : Interval { duration >= 1.0; }', '}', 'Rover ag = new Rover();',
+                 'goal a = new ag.A();', 'a.start >= 1.0;', 'a.start <= 1.0;',
+                 '{ goal b = new ag.B(); b.start >= a.end + %s; } or { goal d = new ag.D(); d.start >= %s; a.end >= d.start; } [5.0] or { goal c = new ag.C(); c.start >= 15.0; } [10.0]' % (f(gap), f(ds))]
+            out.append(('fe_endfrozen_%d_%d' % (gap, ds), ['\n'.join(L) + '\n'], True))
     return out
 
 
